@@ -118,6 +118,10 @@ TypeOK == seq \in 0..65535 /\ pc \in {"idle", "run"}
 (* ---- replay cases -------------------------------------------------------- *)
 OpDone == pc' = "idle" /\ (nops' = nops + 1)
 DumpEdges == (DumpCases /\ OpDone) => PrintT(<< "CASE", ToJson(hist') >>)
+(* EncPaths configurations run without the VIEW: the history is part of the state, so TLC enumerates every *history*   *)
+(* of MaxOps operations (not one path per transition) - an implementation may keep state the specification does not   *)
+(* have (a counter remembered per stream id, say), and only whole histories reach it; complete paths are printed      *)
+DumpPaths == (DumpCases /\ OpDone /\ nops' = MaxOps) => PrintT(<< "CASE", ToJson(hist') >>)
 
 (* non-vacuity counters: number of completed calls that needed segmentation,  *)
 (* aggregation, a message type change                                         *)
